@@ -514,10 +514,10 @@ pub enum Op {
     Alloc { ty: Ty },
     AllocVal { ty: Ty, seed: u64 },
     SetValue { slot: u16, seed: u64 },
-    AllocArray { ty: Ty, n: u8 },
+    AllocArray { ty: Ty, n: u16 },
     SetAt { arr: u16, idx: u16, seed: u64 },
-    FromArray { ty: Ty, n: u8, seed: u64 },
-    FromIter { ty: Ty, n: u8, seed: u64 },
+    FromArray { ty: Ty, n: u16, seed: u64 },
+    FromIter { ty: Ty, n: u16, seed: u64 },
     WriteBytes { data: Vec<u8> },
     WriteAll { data: Vec<u8> },
     Str { s: String },
@@ -552,15 +552,26 @@ pub fn string_strategy() -> impl Strategy<Value = String> {
     .prop_map(|v| v.into_iter().collect())
 }
 
+/// element counts: mostly a handful, sometimes hundreds, sometimes around the powers of two up to 4096
+/// (a thread list, a memory list or a module list of a large process)
+fn count_strategy() -> impl Strategy<Value = u16> {
+    prop_oneof![
+        40 => 0u16..9,
+        3 => 9u16..300,
+        1 => (0usize..5, 0u16..4).prop_map(|(k, d)| [255u16, 511, 1023, 2047, 4095][k] + d),
+        1 => 300u16..3000,
+    ]
+}
+
 fn op_strategy() -> impl Strategy<Value = Op> {
     prop_oneof![
         3 => ty_strategy().prop_map(|ty| Op::Alloc { ty }),
         3 => (ty_strategy(), any::<u64>()).prop_map(|(ty, seed)| Op::AllocVal { ty, seed }),
         4 => (any::<u16>(), any::<u64>()).prop_map(|(slot, seed)| Op::SetValue { slot, seed }),
-        3 => (ty_strategy(), 0u8..9).prop_map(|(ty, n)| Op::AllocArray { ty, n }),
+        3 => (ty_strategy(), count_strategy()).prop_map(|(ty, n)| Op::AllocArray { ty, n }),
         4 => (any::<u16>(), any::<u16>(), any::<u64>()).prop_map(|(arr, idx, seed)| Op::SetAt { arr, idx, seed }),
-        2 => (copy_ty_strategy(), 0u8..9, any::<u64>()).prop_map(|(ty, n, seed)| Op::FromArray { ty, n, seed }),
-        2 => (ty_strategy(), 0u8..9, any::<u64>()).prop_map(|(ty, n, seed)| Op::FromIter { ty, n, seed }),
+        2 => (copy_ty_strategy(), count_strategy(), any::<u64>()).prop_map(|(ty, n, seed)| Op::FromArray { ty, n, seed }),
+        2 => (ty_strategy(), count_strategy(), any::<u64>()).prop_map(|(ty, n, seed)| Op::FromIter { ty, n, seed }),
         2 => proptest::collection::vec(any::<u8>(), 0..40).prop_map(|data| Op::WriteBytes { data }),
         1 => proptest::collection::vec(any::<u8>(), 0..40).prop_map(|data| Op::WriteAll { data }),
         3 => string_strategy().prop_map(|s| Op::Str { s }),
@@ -657,7 +668,7 @@ pub fn check(case: &Case) -> Verdict {
             }
             Op::AllocArray { ty, n } => {
                 let sz = size_of_ty(*ty);
-                let n = *n as usize;
+                let n = *n as usize % 4200;
                 with_ty!(*ty, T => {
                     let w = match MemoryArrayWriter::<T>::alloc_array(&mut buf, n) { Ok(w) => w, Err(e) => bad!("alloc-err", "{e:?}") };
                     let loc = w.location();
@@ -699,7 +710,7 @@ pub fn check(case: &Case) -> Verdict {
             Op::FromArray { ty, n, seed } => {
                 // alloc_from_array needs Copy element types: other types fold onto one of those (total interpreter)
                 let ty = &if COPY_TYS.contains(ty) { *ty } else { COPY_TYS[(*seed % COPY_TYS.len() as u64) as usize] };
-                let n = *n as usize;
+                let n = *n as usize % 4200;
                 let sz = size_of_ty(*ty);
                 let mut all = vec![];
                 with_copy_ty!(*ty, T => {
@@ -720,7 +731,7 @@ pub fn check(case: &Case) -> Verdict {
                 kinds.insert("alloc_from_array");
             }
             Op::FromIter { ty, n, seed } => {
-                let n = *n as usize;
+                let n = *n as usize % 4200;
                 let sz = size_of_ty(*ty);
                 let mut all = vec![];
                 with_ty!(*ty, T => {
@@ -845,7 +856,7 @@ pub fn run(ctx: &mut LaneCtx) {
         SubSpec {
             name: "history",
             cases: (48_000, 3_000_000),
-            rule: "histories of <=60 builder ops over 20 element types and Unicode strings (0..23 characters, and lengths around 128, 256 and 600..1200) vs a Vec<u8> reference model checked after every op; non-trivial = history contains a fill-later (set_value/set_value_at) after >=1 intervening append and uses >=3 op kinds; distinct = hash of the history",
+            rule: "histories of <=60 builder ops over 20 element types (arrays of 0..8 elements mostly, sometimes hundreds and sometimes 255..4098 elements around the powers of two) and Unicode strings (0..23 characters, and lengths around 128, 256 and 600..1200) vs a Vec<u8> reference model checked after every op; non-trivial = history contains a fill-later (set_value/set_value_at) after >=1 intervening append and uses >=3 op kinds; distinct = hash of the history",
             strategy: proptest::collection::vec(op_strategy(), 0..60).prop_map(|ops| Case { ops }).boxed(),
             max_shrink_iters: 4096,
             log_current: false,
